@@ -687,6 +687,10 @@ def k6_error_while_unwinding(res, tier):
         unwinding = e.fork_bool(z3.Bool('fiber_is_unwinding'))
         st.fiber.f[W.fib_idx['state']] = Cell(EnumV('fiber::FiberState', st_def.vindex['Unwinding' if unwinding else 'Running'], None, None, st_def))
         e.add_constraint(z3.UGE(st.nh0, 1))
+        sd = P.struct_def(HANDLER)
+        h = uv.seq.load(e, z3.simplify(st.nh0 - 1))
+        hdepth = h.field(e, sd.index_of('call_frame_depth'), 'usize').get(e)
+        e.assume(z3.And(z3.UGE(hdepth, 1), z3.ULE(hdepth, st.nframes)))        # C04.K2: the handler's frame exists
         err = e.fresh('laythe_core::object::Instance', 'new_error')
         try:
             e.call(f, [Ref(st.vm_cell), err])
